@@ -63,6 +63,8 @@ def key_alts(k):
 def eq_values(vm, s, a, b) -> B:
     from .opcodes import lift2, binop_atomic
     r = lift2(vm, s, a, b, lambda x, y: binop_atomic(vm, s, "==", x, y))
+    if r is UNDEF:
+        return FALSE   # no alternative of a/b is consistent with the current guard
     return truth(r)
 
 
